@@ -538,6 +538,10 @@ pub fn run_replay(path: &str, workers: usize) -> i32 {
         return 2;
     }
     let Some(r) = result else { return 2 };
+    if let Ok(dump) = std::env::var("HSIM_DUMP") {
+        // full record of this replay (script, decisions, event log) for diagnosis
+        let _ = std::fs::write(&dump, serde_json::to_vec_pretty(&json!({"property": prop, "seed": r.seed, "violation": r.violations.first(), "minimised": false, "trace": r.trace})).unwrap());
+    }
     let want_class = body["violation"]["class"].as_str().unwrap_or("");
     match &r.verdict {
         Verdict::Harness(m) => {
